@@ -13,6 +13,7 @@ EVENTS = []       # (seq, thread_ident, plugin_name, callback, payload)
 FAULTS = {}       # (plugin_name, callback) -> set of call indexes | '*'
 CALLS = {}        # (plugin_name, callback) -> number of calls so far
 INSTANCES = {}    # plugin_name -> [instances]
+KEPT_LABELS = []  # (labels object as handed to a metric processor, copy taken at that moment)
 HOOK = [None]     # optional callable(plugin_name, callback, payload) run at every record (for rigs)
 _tls = threading.local()   # .idx = call index of the record the hook is running for (per thread)
 
@@ -27,6 +28,7 @@ def reset():
         FAULTS.clear()
         CALLS.clear()
         INSTANCES.clear()
+        del KEPT_LABELS[:]
         HOOK[0] = None
 
 
@@ -129,15 +131,19 @@ class _LogMixin(TracepointLogger):
 
 class _MetMixin(MetricProcessor):
     def counter(self, name, labels, namespace, help_string, unit, value):
+        KEPT_LABELS.append((labels, dict(labels)))
         _rec(self.name, 'metric', ('counter', name, dict(labels), namespace, help_string, unit, value))
 
     def gauge(self, name, labels, namespace, help_string, unit, value):
+        KEPT_LABELS.append((labels, dict(labels)))
         _rec(self.name, 'metric', ('gauge', name, dict(labels), namespace, help_string, unit, value))
 
     def histogram(self, name, labels, namespace, help_string, unit, value):
+        KEPT_LABELS.append((labels, dict(labels)))
         _rec(self.name, 'metric', ('histogram', name, dict(labels), namespace, help_string, unit, value))
 
     def summary(self, name, labels, namespace, help_string, unit, value):
+        KEPT_LABELS.append((labels, dict(labels)))
         _rec(self.name, 'metric', ('summary', name, dict(labels), namespace, help_string, unit, value))
 
 
